@@ -259,6 +259,7 @@ func runMaxSatCase(o *Oracle, d json.RawMessage, oc *Outcome) {
 	case "api":
 		names := map[string]bool{}
 		cs := make([]maxsat.Constr, len(c.Constrs))
+		shared := map[string][]int{} // constraints with equal coefficient lists share one table, as a caller may
 		for i, k := range c.Constrs {
 			lits := make([]maxsat.Lit, len(k.Lits))
 			for j, l := range k.Lits {
@@ -268,13 +269,31 @@ func runMaxSatCase(o *Oracle, d json.RawMessage, oc *Outcome) {
 			}
 			var co []int
 			if k.Coeffs != nil {
-				co = append([]int{}, k.Coeffs...)
+				key := fmt.Sprint(k.Coeffs)
+				if t, ok := shared[key]; ok {
+					co = t
+				} else {
+					co = append([]int{}, k.Coeffs...)
+					shared[key] = co
+				}
 			}
 			cs[i] = maxsat.Constr{Lits: lits, Coeffs: co, AtLeast: k.AtLeast, Weight: k.Weight}
 		}
 		pb := maxsat.New(cs...)
 		model, cost := pb.Solve()
 		entry := "maxsat.Problem.Solve"
+		// the caller's constraints are his: building and solving must not change them, and the
+		// same values handed to New again must give the same answer (judged below on the 2nd run)
+		for i, k := range c.Constrs {
+			if fmt.Sprint(cs[i].Coeffs) != fmt.Sprint(k.Coeffs) && !(k.Coeffs == nil && cs[i].Coeffs == nil) {
+				oc.Fail("spec", "caller-constraints-unchanged", "maxsat.New", "constraint %d: coefficients %v became %v after New/Solve", i, k.Coeffs, cs[i].Coeffs)
+				break
+			}
+		}
+		if len(oc.Failures) == 0 {
+			model, cost = maxsat.New(cs...).Solve()
+			oc.Tag("solved-twice")
+		}
 		if model == nil {
 			judge(entry, true, cost, nil)
 			if cost != -1 {
